@@ -331,8 +331,10 @@ func (c *clientHello) parseExtensions() error {
 				if !versions.ReadUint16(&v) {
 					return fmt.Errorf("%w: version", ErrDecodeError)
 				}
-				// GREASE values (RFC 8701) are not versions.
-				if v >= 0x0304 && !(v&0x0f0f == 0x0a0a && v>>8 == v&0xff) {
+				// TLS 1.3 or a later TLS version: 0x0304 and up with the
+				// major number 3. GREASE values (RFC 8701), DTLS versions
+				// (0xfe..) and draft versions (0x7f..) are not.
+				if v >= 0x0304 && v>>8 == 0x03 {
 					c.tls13 = true
 				}
 			}
